@@ -6,11 +6,13 @@ pub mod c03;
 pub mod c04;
 pub mod c05;
 pub mod c06;
+pub mod c07;
 pub mod c08;
 pub mod c09;
 pub mod c10;
 pub mod c11;
 pub mod c12;
+pub mod c13;
 pub mod c16;
 pub mod c17;
 pub mod c19;
@@ -43,7 +45,7 @@ pub fn need(p: &Partial, counter: &str, min: u64) -> Result<(), String> {
     if n < min { Err(format!("oracle branch '{counter}' taken {n} times (< {min})")) } else { Ok(()) }
 }
 
-pub static ALL: &[&Prop] = &[&c02::PROP, &c03::PROP, &c04::PROP, &c05::PROP, &c06::PROP, &c08::PROP, &c09::PROP, &c10::PROP, &c11::PROP, &c12::PROP, &c16::PROP, &c17::PROP, &c19::PROP];
+pub static ALL: &[&Prop] = &[&c02::PROP, &c03::PROP, &c04::PROP, &c05::PROP, &c06::PROP, &c07::PROP, &c08::PROP, &c09::PROP, &c10::PROP, &c11::PROP, &c12::PROP, &c13::PROP, &c16::PROP, &c17::PROP, &c19::PROP];
 
 pub fn lookup(id: &str) -> Option<&'static Prop> {
     ALL.iter().copied().find(|p| p.id == id)
